@@ -95,7 +95,10 @@ def run(ctx):
     except Exception:  # noqa
         pass
     for rec in (ld["langs"] if tier != "quick" else R.sample(ld["langs"], 50)):
-        names = [(n, i) for n, k, i in single_meaning(rec) if k == "month" and (rec["name"], n) not in known_c05]
+        # a localized name that is itself an English month name / abbreviation makes the *raw* string match the format, and the
+        # property says that reading wins ("If the raw string matches one of the given formats, that reading is returned"): not in this stratum
+        english = {x.lower() for x in list(calendar.month_name[1:]) + list(calendar.month_abbr[1:])}
+        names = [(n, i) for n, k, i in single_meaning(rec) if k == "month" and (rec["name"], n) not in known_c05 and n.lower() not in english]
         for name, m in (names if tier != "quick" else R.sample(names, min(len(names), 4))):
             y = R.randint(1950, 2050); dday = R.randint(1, 28)
             for f, s in (("%d %B %Y", "%d %s %d" % (dday, name, y)),):
